@@ -21,7 +21,8 @@ Print Assumptions C02_expression_inversion.
 (* Since the syntax has  EObj f pid a  ( the <property number pid> of sound / sprite / cast <a> , opcodes 5C 04 / 06 / 09 / 0D:
    the object id, the property number as an integer, the two-byte opcode) and  SSetObj  (its assignment form, 5D ..),
    the two inversion theorems cover the object-property families as well, nested to any depth inside the other
-   forms; the text / JavaScript theorems exclude them (text_ok, js_ok).  Non-vacuity: *)
+   forms; so do the Lingo-text theorems below (C02_emitted_text_is_canonical, C02_canonical_text_parses_back,
+   C02_statement_line); the JavaScript theorems exclude them (js_ok).  Non-vacuity: *)
 Example C02_object_property_example :
   let en := Build_env ["x"; "puppet"] [] [Leaf KLocal "i" 0 true] [] [] in
   let e := EObj FSprite 8 (EBin Add (ELoc 0) (EInt 1)) in          (* the height of sprite (i + 1) *)
@@ -104,6 +105,25 @@ Theorem C02_canonical_text_parses_back_in_context :
     parse_u fuel (strip (pp_tok en e) ++ rest) = Some (e, rest).
 Proof. exact parse_pp. Qed.
 Print Assumptions C02_canonical_text_parses_back_in_context.
+
+(* the object-property forms in the text theorems: the identifier of a sound / sprite / cast / menu / menuItem is
+   written as it is when it is a constant (TRawInt, TRawConst: cast "title", not the re-quoted literal), and
+   generated otherwise; the canonical tokens read back as the source expression *)
+Example C02_object_text_example :
+  let en := Build_env ["x"] [] [Leaf KLocal "i" 0 true] [] [CStr """title"""] in
+  let e1 := EObj FCast 2 (EConst 0) in                                  (* the text of cast "title" *)
+  let e2 := EMenu 3 (EInt 2) (EBin Add (ELoc 0) (EInt 1)) in            (* the enabled of menuItem 2 of menu (i + 1) *)
+  let e3 := EObj FNumber 4 (EObj FField 2 (ELoc 0)) in                  (* the number of lines of the text of field i *)
+  (text_ok en e1 /\ text_ok en e2 /\ text_ok en e3) /\
+  gen_lingo (reify_e en 0 e1) 0 = "the text of cast ""title""" /\
+  gen_lingo (reify_e en 0 e2) 0 = "the enabled of menuItem 2 of menu (i + 1)" /\
+  gen_lingo (reify_e en 0 e3) 0 = "the number of lines of the text of field i" /\
+  parse_expr 20 (strip (pp_tok en e1)) = Some (e1, []) /\
+  parse_expr 20 (strip (pp_tok en e2)) = Some (e2, []) /\
+  parse_expr 20 (strip (pp_tok en e3)) = Some (e3, []) /\
+  gen_lingo (reify_s en [] 0 (SSetObj FSprite 8 (ELoc 0) (EInt 5))) 1 = ("    set the height of sprite i = 5" ++ "
+")%string.
+Proof. split; [cbn; tauto|]. repeat split; vm_compute; reflexivity. Qed.
 
 (* Statement lines: the line emitted for a decompiled assignment or statement-position call is the canonical
    line of the SOURCE statement - "set <target> = <expression>" with the target written as a variable, or as
